@@ -216,6 +216,27 @@ def run_case(case):
         if vec[2] == 1:
             if o["lines"] or o["printouts"] or o["vars"] or o["scan_count"] or o["match_count"] or o["stdout"].strip() or o["unmatched"]:
                 bad("run-mode no-run still read or produced something", (o["lines"], o["printouts"], o["vars"], o["scan_count"]), "nothing", cstr)
+            if vec[0] == 0 and vec[1] == 0 and vec[3] == 0:
+                # the other documented way in: the csvpath string handed straight to next() / collect() / fast_forward()
+                settings = " ".join(f"{MKEYS[i]}: {MODES[MKEYS[i]][vec[i]]}" for i in range(5))
+                text = f"~ {settings} ~ ${path}[{sc}]{prog}"
+                for how in ("next", "collect", "fast_forward"):
+                    p2, tp2 = run.new_path(("collect",))
+                    try:
+                        with sandbox.capture_stdout():
+                            if how == "next":
+                                got2 = [list(l) for l in p2.next(text)]
+                            elif how == "collect":
+                                got2 = [list(l) for l in p2.collect(text)]
+                            else:
+                                p2.fast_forward(text)
+                                got2 = []
+                    except Exception as e:  # noqa: BLE001
+                        bad(f"run-mode no-run via {how}(csvpath) raised", f"{type(e).__name__}: {str(e)[:80]}", None, cstr)
+                        continue
+                    pub, _ = run.split_vars(p2.variables)
+                    if got2 or pub or p2.scan_count or p2.match_count or tp2.lines:
+                        bad(f"run-mode no-run still read or produced something when the csvpath is passed to {how}()", (got2, pub, p2.scan_count, list(tp2.lines)), "nothing", cstr)
             continue
         # R2 return-mode
         if vec[0] == 0:
